@@ -197,6 +197,35 @@ pub fn i64_expr(x: i64) -> String {
     }
 }
 
+/// Integer operand pairs whose sum, difference or product lands within a few hundred of a boundary
+/// (+-2^63, +-2^53, 2^31, 2^32, 2^62, 0): range and exactness checks are decided there, and fixed pools
+/// of boundary values reach such results only for a handful of operand shapes.
+pub fn boundary_seeking(rng: &mut Rng) -> (i64, &'static str, i64) {
+    let targets: [i128; 11] = [1 << 63, -(1 << 63), (1 << 63) - 1, 1 << 53, -(1 << 53), 1 << 31, 1 << 32, 1 << 62, -(1 << 62), 0, 1 << 52];
+    loop {
+        let t = *rng.pick(&targets[..]) + rng.range(-1500, 1500) as i128;
+        let k = 1 + rng.below(62);
+        let mut a: i128 = (rng.next() >> (64 - k)) as i128;
+        if a < 2 {
+            a += 2;
+        }
+        if rng.chance(1, 2) {
+            a = -a;
+        }
+        let (op, b): (&'static str, i128) = match rng.below(3) {
+            0 => ("+", t - a),
+            1 => ("-", a - t),
+            _ => {
+                let q = t.div_euclid(a);
+                ("*", if rng.chance(1, 2) { q } else { q + 1 })
+            }
+        };
+        if a >= i64::MIN as i128 && a <= i64::MAX as i128 && b >= i64::MIN as i128 && b <= i64::MAX as i128 {
+            return (a as i64, op, b as i64);
+        }
+    }
+}
+
 pub fn dec_text(d: &DecV) -> String {
     let digits = format!("{}", d.mant);
     let s = d.scale as usize;
